@@ -35,7 +35,11 @@ struct Root<'gc> {
 
 type TestArena = Arena<Rootable![Root<'_>]>;
 
-const HDR_BYTES: usize = 16; // asserted against the model's platform constants by the check
+/// size_of::<GcHeader>() as measured by the twin of the source (passed with --hdr-bytes)
+static HDR_BYTES: std::sync::atomic::AtomicUsize = std::sync::atomic::AtomicUsize::new(16);
+fn hdr_bytes() -> usize {
+    HDR_BYTES.load(std::sync::atomic::Ordering::Relaxed)
+}
 
 struct Rec {
     kind: String, // kind tokens for the L line
@@ -107,10 +111,10 @@ fn place(ctx: &mut St, r: &mut Rec) -> usize {
             off, off + r.val_size, b.size, b.align));
         writable = end - r.addr;
     }
-    if off < HDR_BYTES + r.meta.0 {
+    if off < hdr_bytes() + r.meta.0 {
         ctx.viol(&d, &format!(
             "only {} bytes in front of the value inside the block: no room for the {}-byte header and {}-byte metadata",
-            off, HDR_BYTES, r.meta.0));
+            off, hdr_bytes(), r.meta.0));
     }
     writable
 }
@@ -625,7 +629,7 @@ fn batch_swh<H: Plain, E: Plain>(ctx: &mut Ctx, lens: &[usize]) {
 // ------------------------------------------------------------------------------------------------
 fn std_says_reject(meta: Layout, value: Option<Layout>) -> Option<u8> {
     let Some(value) = value else { return Some(1) };
-    let hdr = Layout::from_size_align(HDR_BYTES, 8).unwrap();
+    let hdr = Layout::from_size_align(hdr_bytes(), 8).unwrap();
     let mh = meta.extend(hdr).ok()?.0.pad_to_align();
     match mh.extend(value) {
         Ok(_) => None,
@@ -678,13 +682,17 @@ fn reject_swh<H: Plain, E: Plain>(ctx: &mut Ctx, kind: &str, slice_kind: u8) {
             0 => drop(GcSliceBuilder::<E>::new(len)),
             1 => drop(GcStrBuilder::new(len)),
             _ => drop(GcSliceWithHeaderBuilder::<H, E>::new(len)),
-        }));
+        }))
+        .map_err(|p| {
+            // the payload is dropped here; keep the message only when it is unexpected
+            let (code, msg) = panic_code(p);
+            (code, if code == 9 { msg } else { String::new() })
+        });
         let (live1, _) = talloc::live();
         let d = format!("kind=[{}] len={}", kind, len);
         match res {
             Ok(()) => ctx.st.viol(&d, "a request whose layout overflows was accepted"),
-            Err(p) => {
-                let (code, msg) = panic_code(p);
+            Err((code, msg)) => {
                 if code == 9 {
                     ctx.st.viol(&d, &format!("unexpected panic message: {}", msg));
                 }
@@ -754,27 +762,41 @@ fn flags_via_hooks(_ctx: &mut Ctx) {
 // ------------------------------------------------------------------------------------------------
 // grids
 // ------------------------------------------------------------------------------------------------
+/// Run one batch; a panic inside the crate on a valid request is reported and the run goes on
+/// with a fresh arena.
+fn guarded(ctx: &mut Ctx, what: &str, f: impl FnOnce(&mut Ctx)) {
+    let r = catch_unwind(AssertUnwindSafe(|| f(ctx)));
+    if let Err(p) = r {
+        talloc::log_stop();
+        let (_, msg) = panic_code(p);
+        ctx.st.viol(what, &format!("panic inside gc-arena on a valid request: {}", msg));
+        let old = std::mem::replace(&mut ctx.arena, TestArena::new(|_| Root { keep: Vec::new() }));
+        std::mem::forget(old);
+        ctx.st.drain_alloc_errors(what);
+    }
+}
+
 macro_rules! sized_grid {
     ($ctx:expr; $($a:ident),*) => {
         $( sized_grid!(@one $ctx; $a; 0, 1, 3, 8, 9, 17, 24, 33, 64, 100, 255, 1000, 4097); )*
     };
     (@one $ctx:expr; $a:ident; $($s:literal),*) => {
-        $( batch_sized::<$a<$s>>($ctx); )*
+        $( guarded($ctx, concat!("sized ", stringify!($a), "<", stringify!($s), ">"), |c| batch_sized::<$a<$s>>(c)); )*
     };
 }
 
 macro_rules! slice_grid {
-    ($ctx:expr, $lens:expr; $($t:ty),* $(,)?) => { $( batch_slice::<$t>($ctx, $lens); )* };
+    ($ctx:expr, $lens:expr; $($t:ty),* $(,)?) => { $( guarded($ctx, concat!("slice of ", stringify!($t)), |c| batch_slice::<$t>(c, $lens)); )* };
 }
 
 macro_rules! swh_grid {
     ($ctx:expr, $lens:expr; [$($h:ty),* $(,)?]; $es:tt) => { $( swh_grid!(@row $ctx, $lens; $h; $es); )* };
-    (@row $ctx:expr, $lens:expr; $h:ty; [$($e:ty),* $(,)?]) => { $( batch_swh::<$h, $e>($ctx, $lens); )* };
+    (@row $ctx:expr, $lens:expr; $h:ty; [$($e:ty),* $(,)?]) => { $( guarded($ctx, concat!("slice-with-header ", stringify!($h), " / ", stringify!($e)), |c| batch_swh::<$h, $e>(c, $lens)); )* };
 }
 
 macro_rules! custom_grid {
     ($ctx:expr; [$(($md:ty, $v:expr)),* $(,)?]; $ts:tt) => { $( custom_grid!(@row $ctx; $md, $v; $ts); )* };
-    (@row $ctx:expr; $md:ty, $v:expr; [$($t:ty),* $(,)?]) => { $( batch_custom::<$md, $t>($ctx, $v); )* };
+    (@row $ctx:expr; $md:ty, $v:expr; [$($t:ty),* $(,)?]) => { $( guarded($ctx, concat!("custom metadata ", stringify!($md), " / ", stringify!($t)), |c| batch_custom::<$md, $t>(c, $v)); )* };
 }
 
 fn run_all(thorough: bool, seed: u64) -> (usize, usize) {
@@ -801,7 +823,7 @@ fn run_all(thorough: bool, seed: u64) -> (usize, usize) {
     lens.sort();
     lens.dedup();
 
-    flags_via_hooks(ctx);
+    guarded(ctx, "flags via hooks", flags_via_hooks);
 
     sized_grid!(ctx; A1, A2, A4, A8, A16, A32, A64, A128, A256, A1024, A4096, A65536);
     #[cfg(feature = "thorough")]
@@ -811,7 +833,7 @@ fn run_all(thorough: bool, seed: u64) -> (usize, usize) {
         A1<0>, A1<1>, A1<3>, A1<7>, A2<2>, A2<6>, A4<4>, A4<12>, A8<0>, A8<8>, A8<24>, A16<16>,
         A16<48>, A32<1>, A64<0>, A64<64>, A128<1>, A256<256>, A1024<1>, A4096<1>, A65536<1>,
     );
-    batch_str(ctx, &lens);
+    guarded(ctx, "str", |c| batch_str(c, &lens));
 
     swh_grid!(ctx, &lens;
         [A1<0>, A1<1>, A1<3>, A2<2>, A4<4>, A8<0>, A8<8>, A8<24>, A16<16>, A64<0>, A64<1>, A4096<1>];
@@ -849,6 +871,9 @@ fn main() {
     let tier = arg_value("--tier").unwrap_or_else(|| "quick".into());
     let seed: u64 = arg_value("--seed").and_then(|s| s.parse().ok()).unwrap_or(1);
     let thorough = tier == "thorough";
+    if let Some(h) = arg_value("--hdr-bytes").and_then(|s| s.parse().ok()) {
+        HDR_BYTES.store(h, std::sync::atomic::Ordering::Relaxed);
+    }
 
     // platform constants the model is instantiated with (checked by the Python side)
     println!(
